@@ -656,7 +656,7 @@ static void
 describe(char *b, size_t n) {
 	size_t w;
 	int i;
-	w = (size_t)snprintf(b, n, "ph=%s hist=", cur_phase->name);
+	w = (size_t)snprintf(b, n, "tier=%s ph=%s hist=", vh_thorough ? "thorough" : "quick", cur_phase->name);
 	for (i = 0; i < cur_hist.len && w + 8 < n; i ++)
 		w += (size_t)snprintf(b + w, n - w, "%s%d", i ? "," : "", cur_hist.op[i]);
 	if (0 == cur_hist.len)
@@ -1009,7 +1009,8 @@ obs_calc(ini_p ini) {
 static void
 obs_gen(ini_p ini) {
 	size_t need = 0, ret, cap, ncaps = 0, i, off;
-	size_t caps[600];
+	static size_t caps[4096];
+	static uint8_t mark[4096];
 	uint8_t *text;
 	int rc, ovf, bad = 0;
 
@@ -1021,23 +1022,31 @@ obs_gen(ini_p ini) {
 	text = store_text(ini, &need);	/* may be NULL if gen fails at exact capacity: reported below */
 	/* capacities: all of 0..need+1 when small (thorough: <= 96, quick: <= 24), else the
 	 * structural ones: 0, 1, 2, need/2, every line end -2..+1, need-2..need+1; always need+17 */
+	memset(mark, 0, sizeof(mark));
+	if (need + 18 > sizeof(mark)) {
+		vh_fail("harness-capacity", "text of %zu bytes is larger than the harness expects", need);
+		free(text);
+		return;
+	}
 	if (need <= (size_t)(vh_thorough ? 96 : 24)) {
 		for (cap = 0; cap <= need + 1; cap ++)
-			caps[ncaps ++] = cap;
+			mark[cap] = 1;
 	} else {
-		caps[ncaps ++] = 0; caps[ncaps ++] = 1; caps[ncaps ++] = 2; caps[ncaps ++] = need / 2;
-		for (i = 0; NULL != text && i < need && ncaps + 16 < NELEM(caps); i ++) {
+		mark[0] = mark[1] = mark[2] = mark[need / 2] = 1;
+		for (i = 0; NULL != text && i < need; i ++) {
 			if (text[i] != '\n')
 				continue;
 			off = i + 1;	/* end of a line incl. CRLF */
-			if (off >= 2) caps[ncaps ++] = off - 2;
-			caps[ncaps ++] = off - 1;
-			caps[ncaps ++] = off;
-			caps[ncaps ++] = off + 1;
+			if (off >= 2) mark[off - 2] = 1;
+			mark[off - 1] = mark[off] = mark[off + 1] = 1;
 		}
-		caps[ncaps ++] = need - 2; caps[ncaps ++] = need - 1; caps[ncaps ++] = need; caps[ncaps ++] = need + 1;
+		mark[need - 2] = mark[need - 1] = mark[need] = mark[need + 1] = 1;
 	}
-	caps[ncaps ++] = need + 17;
+	mark[need + 17] = 1;
+	for (cap = 0; cap <= need + 17; cap ++) {	/* ascending, every capacity once */
+		if (mark[cap])
+			caps[ncaps ++] = cap;
+	}
 	for (i = 0; i < ncaps; i ++) {
 		cap = caps[i];
 		/* Each ASan report costs ~100 us of formatting; after 40 overflows in this process the
